@@ -179,14 +179,17 @@ RULE_C03 = ("each evaluation is one simulated pair of peer connections drawn fro
             "negotiation; distinct = distinct event-log digests")
 
 
-def _pc(run_name, rule, level="exploration", quick_s=45, thorough_s=600, probes=(), measure=""):
+def _pc(run_name, rule, level="exploration", quick_s=45, thorough_s=600, probes=(), measure="", post=None):
     def build():
         from ..engines import pc_sim
-        return {
+        d = {
             "fn": getattr(pc_sim, run_name), "spec": {}, "level": level, "quick_s": quick_s, "thorough_s": thorough_s,
             "rule": rule, "components": PC_COMPONENTS, "state_measure": measure, "assumptions": PC_ASSUME,
             "probes_expected": list(probes),
         }
+        if post:
+            d["post"] = getattr(pc_sim, post)
+        return d
     return build
 
 
@@ -202,6 +205,16 @@ REGISTRY = {
                probes=["legal_calls", "illegal_calls", "rejected_InvalidStateError", "rejected_ValueError",
                        "calls_in_have-local-offer", "calls_in_have-remote-offer", "calls_in_closed"],
                measure="(model state of A, model state of B) after every call", quick_s=40),
+    "C19": _pc("run_c19", ("each evaluation is one scenario (a C03 configuration: negotiation with signalling delay, connection, media and "
+                           "data flowing, optionally a re-negotiation) in which close() is injected at one scheduler step: run indices "
+                           "enumerate 64 strata of close points over the scenario's measured length (a reference execution counts its steps) "
+                           "per scenario, on either side, both sides at once or staggered, twice in a row, or after the remote side vanished; "
+                           "non-trivial = a close() completed and was judged; distinct = distinct event-log digests"),
+               level="fault_enumeration",
+               probes=["close_completed", "close_in_new", "close_in_connecting", "close_in_connected", "remote_vanished",
+                       "close_in_signaling_have-local-offer", "close_in_signaling_have-remote-offer", "closed_after_scenario_end"],
+               measure="(signalingState, connectionState) of the closing side at the instant close() was issued", quick_s=35,
+               thorough_s=420, post="c19_post"),
     "C04": _dtls(),
     "C11": _media(),
     "C17": _diff(),
